@@ -8,13 +8,14 @@ from .common import tlc, log, workdir, ToolError
 
 # quantities with three and four decimals: every front-end shows quantities exactly (C17)
 G1 = ('2020-06-01 BUY AAA 10.5 @ 5\n2020-07-01 SELL AAA 4.375 @ 8 FEES 1\n2020-07-15 BUY AAA 2.125 @ 6\n'
-      '2021-06-10 DIVIDEND AAA TOTAL 3 TAX 1\n2021-09-01 SELL AAA 3.3333 @ 4\n2021-09-01 BUY BBB 5 @ 2.125\n2021-10-05 SELL BBB 5 @ 2.25\n')
+      '2021-06-10 DIVIDEND AAA TOTAL 3 TAX 1\n2021-09-01 SELL AAA 3.3333 @ 4\n2021-09-01 BUY BBB 5 @ 2.125\n2021-09-01 SELL BBB 1.5 @ 2.5\n2021-10-05 SELL BBB 3.5 @ 2.25\n')
 UNCOVERED = '2020-06-01 BUY AAA 10 @ 5\n2020-07-01 SELL AAA 40 @ 8\n'
 NOEXEMPT = '2030-06-01 BUY AAA 10 @ 5\n2030-07-01 SELL AAA 4 @ 8\n'
 OVERFLOW = '2020-06-01 BUY AAA 1 @ 79228162514264337593543950335 FEES 1\n'
 # a ledger with a disposal in a tax year that has no configured exemption: a single-year report of another year is still possible
 G2 = '2024-05-01 BUY VOD 100 @ 1\n2024-09-10 SELL VOD 10 @ 2\n2026-09-10 SELL VOD 5 @ 2\n2012-05-01 BUY OLD 10 @ 1\n2012-06-01 SELL OLD 5 @ 2\n'
-DISPOSALS = [('2020-07-01', 'AAA'), ('2021-09-01', 'AAA'), ('2021-10-05', 'bbb')]
+# two securities are sold on 2021-09-01: each must be explainable on its own (C09)
+DISPOSALS = [('2020-07-01', 'AAA'), ('2021-09-01', 'AAA'), ('2021-09-01', 'BBB'), ('2021-10-05', 'bbb')]
 
 
 def call(tool, args):
@@ -301,8 +302,9 @@ def _mcp_check(tier, seed):
             k, d = digest_of(resp[rid])
             expect[n] = {'kind': k, 'digest': d if n != 'initialize' else 'init'}
             if n.startswith('explain_') and n != 'explain_missing' and k != 'result':
-                findings.append({'prop': 'C20', 'kind': 'explain_covers', 'case': 0, 'input': json.dumps(cls[n])[:2000], 'data': {},
-                                 'detail': f'calculate_report lists this disposal but explain_matching cannot explain it: {json.dumps(resp[rid])[:300]}'})
+                for pr in ('C20', 'C09', 'C17'):
+                    findings.append({'prop': pr, 'kind': 'explain_covers', 'case': 0, 'input': json.dumps(cls[n])[:2000], 'data': {},
+                                     'detail': f'calculate_report lists this disposal but explain_matching cannot explain it: {json.dumps(resp[rid])[:300]}'})
         # explain_matching agrees with calculate_report / the CLI on every listed disposal (C17: same figures,
         # in full or rounded to pence with midpoints away from zero)
         rc, so, _ = run_cli(os.path.join(root, 'ref'), os.path.join(root, 'ref', 'home'), ['report', '--format', 'json', 'g1.cgt'])
